@@ -1,10 +1,41 @@
 --------------------------- MODULE MC_ChannelCache ---------------------------
-EXTENDS ChannelCache, Json
+EXTENDS ChannelCache, Json, IOUtils
 D2 == <<"a", "b">>
 D3 == <<"a", "b", "c">>
 AllActs  == {"Add", "WriteLater", "Gap", "PruneAge", "Purge", "Recreate", "Read", "Split"}
 SeqActs  == {"Add", "WriteLater", "Gap", "PruneAge", "Purge", "Recreate", "Read"}
 BehActs  == {"Add", "WriteLater", "PruneAge", "Purge", "Recreate", "Read"}
+CoreActs == {"Add", "WriteLater", "PruneAge", "Read"}
+(* quick tier: the deeper exhaustive set is generated for one cache length per run (chosen by the seed) *)
+EnvMaxLens == {atoi(IOEnv.VERIF_C01_MAXLEN)}
+(* Simulation: TLC picks uniformly among SUCCESSOR STATES, so with Next the many-argument actions (reads, writes) swamp
+   PruneAge / Deliver / ReadQuery / ReadEnd.  SimNext draws the arguments with RandomElement: one successor per action
+   kind, so that prunes, late deliveries, query-backed reads and the steps of a split read interleave. *)
+RE(S) == RandomElement(S)
+ActiveDocs == {d \in Docs : ActiveIn(d)}
+KnownDocs == {d \in Docs : \E r \in truth : r.doc = d}
+MissSinces(lim, ao) == {s \in Sinces : ~ReadStart(Cur, s, lim, ao).hit}
+SimNext ==
+  /\ Len(hist) < MaxSteps
+  /\ \/ Add(RE(Docs), FALSE)
+     \/ (ActiveDocs # {} /\ Add(RE(ActiveDocs), TRUE))
+     \/ WriteLater(RE(Docs), FALSE)
+     \/ (ActiveDocs # {} /\ WriteLater(RE(ActiveDocs), TRUE))
+     \/ (pending # {} /\ Deliver(RE(pending)))
+     \/ (pending # {} /\ Deliver(RE(pending)))
+     \/ (RE(1..3) = 1 /\ Gap)
+     \/ (Len(logs) > minLen /\ PruneAge(RE(1..(Len(logs) - minLen))))
+     \/ (Len(logs) > minLen /\ PruneAge(1))
+     \/ (RE(1..2) = 1 /\ KnownDocs # {} /\ Purge(RE(KnownDocs)))
+     \/ (RE(1..4) = 1 /\ Recreate)
+     \/ LET lim == RE(Lims)
+            ao == RE(AOs) IN
+        MissSinces(lim, ao) # {} /\ Read(RE(MissSinces(lim, ao)), lim, ao)
+     \/ LET lim == RE(Lims)
+            ao == RE(AOs) IN
+        MissSinces(lim, ao) # {} /\ ReadBegin(RE(MissSinces(lim, ao)), lim, ao)
+     \/ ReadQuery \/ ReadEnd
+SimSpec == Init /\ [][SimNext]_vars
 BehaviourExport ==
   (Len(hist) = MaxSteps) => PrintT(<<"BEH", ToJson([mx |-> maxLen, mn |-> minLen, steps |-> hist])>>)
 =============================================================================
